@@ -390,6 +390,20 @@ def run(tier, seed):
     vlib.binding_selftest(o, FAMILY, "PipelineTrace", cfg, tr, muts)
     if len(o.selftests) < (0 if os.environ.get("VERIF_SKIP_MC") else len(CONTROLS)) + len(muts) and not o.violations:
         raise vlib.Infra("binding self-test: some negative control found no applicable trace")
+    # the whole composition on real nodes: clusters of real app.Run nodes (real scheduler, fetcher, consensus over libp2p,
+    # stores, validator API, exchange, aggregation, broadcaster) under faults, every core.Wire edge call trace-validated
+    # against specs/Workflow (value flow, causal order, one root per duty and validator across the cluster)
+    if not o.violations:
+        import grow_workflow
+        nst = len(o.selftests)
+        # only the guards that ARE this property's statement (one root per duty and validator across the cluster; what is
+        # emitted verifies under the group key) may raise an alarm here; the other guards of Workflow.tla judge mechanisms
+        # (./check --grow workflow runs them all)
+        if thorough:
+            grow_workflow.stage(o, tier, seed, only=grow_workflow.C01_GUARDS)
+        else:
+            grow_workflow.light_stage(o, seed, only=grow_workflow.C01_GUARDS)
+        nst = len(o.selftests) - nst
     nem = 0
     for tag in ("tlcgen", "random", "qbft"):
         for t in vlib.split_traces(vlib.read_ndjson(vlib.workdir(PID) + "/trace_%s.ndjson" % tag)):
